@@ -229,6 +229,35 @@ func c04c(c *Ctx) {
 		}
 		marks = append(marks, st.Site)
 	}
+	// a mark made by a deferred literal runs on every exit of the function, also after a failed fetch,
+	// comparison or upload - unless the literal itself tests the function's named error result
+	for _, dl := range deferredLits(f) {
+		for _, st := range dl.StoresTo(im) {
+			if st.Rhs != nil {
+				if b, isConst := constBool(info, st.Rhs); isConst && !b {
+					continue
+				}
+			}
+			guarded := false
+			if ne := f.namedErrResult(); ne != nil {
+				dg := dl.Graph()
+				okE := dg.EdgesImplying(func(a Atom) bool {
+					eq, isCmp := isNilCmp(info, a.E, func(e ast.Expr) bool { return objOf(info, e) == ne })
+					return isCmp && eq == a.Val
+				})
+				if len(okE) > 0 {
+					if pt, _ := dg.ReachableFromEntry(Cut{Edges: okE}, atSite(st.Site)); pt == nil {
+						guarded = true
+					}
+				}
+			}
+			if !guarded {
+				c.Bad(f.Name+" deferred mark", st.Pos(), "the issuer is recorded as stored by a deferred statement, which also runs when the fetch, the comparison or the upload failed: later chains with this issuer skip the upload and are sequenced although issuer/<hash> may be missing")
+				return
+			}
+			// (a guarded deferred mark is not modelled further: with no other mark the obligation stays undecided)
+		}
+	}
 	vinfo := v.Info()
 	vg := v.Graph()
 	fetch, up := v.Calls(specFetch), v.Calls(specUpload)
